@@ -70,7 +70,8 @@ void pbt_generate(Rng& r, int size, Case& c) {
   Profile pf = profile();
   int nops = 2 + (int)r.below((uint64_t)size * 2 + 1);
   int U = 2 + (int)r.below((uint64_t)size * (r.chance(30) ? 1 : 3) + 2);  // key universe: small -> duplicates and hits
-  int mode = (int)r.below(6);                                                 // 0,1 random 2 ascending 3 descending 4 zig-zag 5 fill-then-drain
+  int mode = (int)r.below(7);                                                 // 0,1 random 2 ascending 3 descending 4 zig-zag 5 fill-then-drain 6 one hot key
+  long hot = (long)r.below((uint64_t)U);                                      // (mode 6: most entries carry the same key - long runs of equal keys in a MultiMap)
   c.params["U"] = U;
   //                         ins inshint rm rmit rmfront rmback clear copy assign bulk selfassign insref recreate count
   static const int w01[] = {30, 22, 12, 10, 4, 4, 1, 2, 2, 3, 1, 0, 1, 6};
@@ -88,6 +89,7 @@ void pbt_generate(Rng& r, int size, Case& c) {
       case 2: key = r.chance(80) ? asc++ : (long)r.below((uint64_t)U); break;
       case 3: key = r.chance(80) ? desc-- : (long)r.below((uint64_t)U); break;
       case 4: key = r.chance(80) ? ((zig++ & 1) ? U - zig / 2 : zig / 2) : (long)r.below((uint64_t)U); break;
+      case 6: key = r.chance(75) ? hot : (long)r.below((uint64_t)U); if (o == 2 && r.chance(80)) o = 0; break;   // (few removals by key: they would take the whole run)
       default: key = (long)r.below((uint64_t)U);
     }
     int cont = r.chance(pf == P_C01 ? 85 : 65) ? 0 : 1;
